@@ -105,6 +105,8 @@ var funcSpecs = []funcSpec{
 	{rel: "", name: "(*ScryptIdentity).unwrap", abstract: []string{"format.DecodeString", "scrypt.Key", "age.aeadDecrypt"}},
 	{rel: "", name: "(*ScryptIdentity).Unwrap", abstract: []string{"errors.Is"}},
 	{rel: "", name: "ParseIdentities", abstract: []string{"age.ParseX25519Identity"}, opaque: map[string]string{"Identity": "κ", "X25519Identity": "κ"}, errInts: true},
+	{rel: "armor", name: "(*armoredReader).setErr"},
+	{rel: "armor", name: "(*armoredReader).Read", fuel: map[int]string{1: "(Go.len (r).r).toNat + 1"}},
 	{rel: "", name: "ParseRecipients", abstract: []string{"age.ParseX25519Recipient"}, opaque: map[string]string{"Recipient": "κ", "X25519Recipient": "κ"}, errInts: true},
 }
 
@@ -132,6 +134,7 @@ var stdlibPure = map[string]string{
 	"strings.TrimSuffix":   "Go.strings_TrimSuffix",
 	"strings.LastIndex":    "Go.strings_LastIndex",
 	"bytes.HasPrefix":      "Go.strings_HasPrefix",
+	"bytes.TrimSuffix":     "Go.strings_TrimSuffix",
 	"bytes.Equal":          "Go.bytes_Equal",
 }
 
@@ -178,6 +181,11 @@ type fctx struct {
 	deferred     []ast.Stmt // bodies of `defer func() { … }()` statements passed so far (function level only)
 	tapeVar      *types.Var // the explicit crypto/rand state (funcSpec.tape)
 	stopped      bool       // funcSpec.stopAt was reached: the remaining statements are not translated
+	// closures: `x := func(…) … { … }` at function level whose only captured variable is the receiver: translated as
+	// one more method of the receiver's type (the receiver handed back), `x(…)` as a call of that method
+	closures  map[*types.Var]*FuncInfo
+	recvIdent *ast.Ident // an identifier that denotes the receiver (for the calls of closures)
+	noHoist   bool       // the statement being translated deals with the handed-back receiver itself
 }
 
 // absParam: a callee that stays abstract = a leading parameter of the translated definition
@@ -820,6 +828,22 @@ func (c *fctx) binary(at ast.Node, X ast.Expr, op token.Token, Y ast.Expr, opT t
 		if op == token.NEQ {
 			o = "!="
 		}
+		// len(bytes.TrimSpace(b)) == 0: "b is white space only" (Go.bytes_allSpace; the trimmed value itself is not modelled)
+		if lc, ok := ast.Unparen(X).(*ast.CallExpr); ok && len(lc.Args) == 1 {
+			if b, ok := c.fi.Pkg.callee(lc).(*types.Builtin); ok && b.Name() == "len" {
+				if tc, ok := ast.Unparen(lc.Args[0]).(*ast.CallExpr); ok {
+					if f, ok := c.fi.Pkg.callee(tc).(*types.Func); ok && f.Pkg() != nil && f.Pkg().Path() == "bytes" && f.Name() == "TrimSpace" {
+						if tv := c.info().Types[Y]; tv.Value == nil || tv.Value.String() != "0" {
+							c.fail(at, "len(bytes.TrimSpace(…)) compared with something other than 0")
+						}
+						if op == token.EQL {
+							return "(Go.bytes_allSpace " + c.expr(tc.Args[0]) + ")"
+						}
+						return "(!(Go.bytes_allSpace " + c.expr(tc.Args[0]) + "))"
+					}
+				}
+			}
+		}
 		switch {
 		case c.isNil(Y):
 			return "(" + c.expr(X) + " " + o + " " + c.exprAs(Y, c.typeOf(X)) + ")"
@@ -1019,6 +1043,16 @@ func (c *fctx) call(x *ast.CallExpr) string {
 					return c.expr(sel.X)
 				}
 			}
+			if o.Pkg().Path() == "bytes" && o.Name() == "ContainsAny" {
+				chars, ok := c.fi.Pkg.constString(x.Args[1])
+				for _, ch := range []byte(chars) {
+					ok = ok && ch < 0x80
+				}
+				if !ok {
+					c.fail(x, "bytes.ContainsAny with a set that is not a constant ASCII string")
+				}
+				return "(Go.bytes_ContainsAny " + c.expr(x.Args[0]) + " " + bytesLit(chars) + ")"
+			}
 			if o.Pkg().Path() == "strconv" && o.Name() == "Itoa" {
 				return "(Go.strconv_Itoa " + c.expr(x.Args[0]) + ")"
 			}
@@ -1088,38 +1122,21 @@ func (c *fctx) call(x *ast.CallExpr) string {
 			}
 			// another translated function (or method)
 			if fi := c.t.pr.Funcs[o]; fi != nil {
-				name := c.t.translate(fi, c, x)
-				var parts []string
-				for _, a := range c.t.absOf[o] {
-					c.useAbstractName(a.name, a.sig)
-					parts = append(parts, a.name)
-				}
+				var recv ast.Expr
 				if fi.Decl.Recv != nil {
 					sel, ok := ast.Unparen(x.Fun).(*ast.SelectorExpr)
 					if !ok {
 						c.fail(x, "method call shape")
 					}
-					parts = append(parts, c.expr(sel.X))
+					recv = sel.X
 				}
-				psig := o.Type().(*types.Signature).Params()
-				for i, a := range x.Args {
-					if u, ok := ast.Unparen(a).(*ast.UnaryExpr); ok && u.Op == token.AND {
-						if c.t.arrInout[o] {
-							c.fail(x, "call passing an address to a function that changes the array, in an expression")
-						}
-						parts = append(parts, c.expr(u.X))
-						continue
-					}
-					var want types.Type
-					if i < psig.Len() {
-						want = psig.At(i).Type()
-					}
-					parts = append(parts, c.exprAs(a, want))
-				}
-				return "(← " + name + " " + strings.Join(parts, " ") + ")"
+				return c.translatedCall(x, o, fi, recv)
 			}
 		}
 	case *types.Var:
+		if cfi := c.closures[o]; cfi != nil {
+			return c.translatedCall(x, cfi.Obj, cfi, c.recvIdent)
+		}
 		// a package-level variable of function type that is listed as abstract (format.EncodeToString is one)
 		if fsig, isSig := o.Type().Underlying().(*types.Signature); isSig && o.Pkg() != nil && o.Parent() == o.Pkg().Scope() && c.spec != nil {
 			for _, a := range c.spec.abstract {
@@ -1151,6 +1168,132 @@ func (c *fctx) call(x *ast.CallExpr) string {
 	}
 	c.fail(x, "call of %s has no translation", c.t.pr.text(c.fi.Pkg, x.Fun))
 	return ""
+}
+
+// translatedCall: a call of another translated function or method (recv: the receiver expression, nil for a function).
+// A method that hands its receiver back is, in expression position, hoisted in front of the current statement:
+// its receiver is updated there and the value of the expression is the tuple of its results.
+func (c *fctx) translatedCall(x *ast.CallExpr, o *types.Func, fi *FuncInfo, recv ast.Expr) string {
+	name := c.t.translate(fi, c, x)
+	var parts []string
+	for _, a := range c.t.absOf[o] {
+		c.useAbstractName(a.name, a.sig)
+		parts = append(parts, a.name)
+	}
+	if recv != nil {
+		parts = append(parts, c.expr(recv))
+	}
+	psig := o.Type().(*types.Signature).Params()
+	for i, a := range x.Args {
+		if u, ok := ast.Unparen(a).(*ast.UnaryExpr); ok && u.Op == token.AND {
+			if c.t.arrInout[o] {
+				c.fail(x, "call passing an address to a function that changes the array, in an expression")
+			}
+			parts = append(parts, c.expr(u.X))
+			continue
+		}
+		var want types.Type
+		if i < psig.Len() {
+			want = psig.At(i).Type()
+		}
+		parts = append(parts, c.exprAs(a, want))
+	}
+	raw := "(← " + name + " " + strings.Join(parts, " ") + ")"
+	if c.t.recvInout[o] && !c.noHoist && recv != nil {
+		nres := o.Type().(*types.Signature).Results().Len()
+		t := c.tmp()
+		e, ind := c.curE, c.curInd
+		c.syncAlias(e, ind, recv, true)
+		e.add(ind, "let "+t+" := "+raw)
+		c.assignTo(e, ind, recv, t+strings.Repeat(".2", nres), false)
+		c.syncAlias(e, ind, recv, false)
+		c.curE, c.curInd = e, ind
+		switch nres {
+		case 0:
+			return "()"
+		case 1:
+			return t + ".1"
+		}
+		var vals []string
+		proj := t
+		for i := 0; i < nres; i++ {
+			vals = append(vals, proj+".1")
+			proj += ".2"
+		}
+		return "(" + strings.Join(vals, ", ") + ")"
+	}
+	return raw
+}
+
+// methodCallee: the translated method a call invokes and its receiver expression — `recv.m(…)`, or `x(…)` for a closure
+func (c *fctx) methodCallee(call *ast.CallExpr) (*types.Func, *FuncInfo, ast.Expr) {
+	if id, ok := ast.Unparen(call.Fun).(*ast.Ident); ok {
+		if v, ok := c.info().Uses[id].(*types.Var); ok {
+			if cfi := c.closures[v]; cfi != nil {
+				return cfi.Obj, cfi, c.recvIdent
+			}
+		}
+	}
+	if sel, ok := ast.Unparen(call.Fun).(*ast.SelectorExpr); ok {
+		if m, ok := c.fi.Pkg.callee(call).(*types.Func); ok {
+			if fi := c.t.pr.Funcs[m]; fi != nil && fi.Decl.Recv != nil {
+				return m, fi, sel.X
+			}
+		}
+	}
+	return nil, nil, nil
+}
+
+// findClosures registers the closures of the function (see fctx.closures)
+func (c *fctx) findClosures() {
+	fi := c.fi
+	sig := fi.Obj.Type().(*types.Signature)
+	rv := sig.Recv()
+	if rv == nil || fi.Decl.Recv == nil || len(fi.Decl.Recv.List) != 1 || len(fi.Decl.Recv.List[0].Names) != 1 {
+		return
+	}
+	for _, s := range fi.Decl.Body.List {
+		as, ok := s.(*ast.AssignStmt)
+		if !ok || as.Tok != token.DEFINE || len(as.Lhs) != 1 || len(as.Rhs) != 1 {
+			continue
+		}
+		lit, ok := as.Rhs[0].(*ast.FuncLit)
+		id, ok2 := as.Lhs[0].(*ast.Ident)
+		if !ok || !ok2 {
+			continue
+		}
+		v, _ := c.info().Defs[id].(*types.Var)
+		lsig, _ := c.typeOf(lit).(*types.Signature)
+		if v == nil || lsig == nil {
+			continue
+		}
+		// every variable the closure mentions is its own, or the receiver
+		ast.Inspect(lit.Body, func(n ast.Node) bool {
+			if u, ok := n.(*ast.Ident); ok {
+				if w, ok := c.info().Uses[u].(*types.Var); ok && !w.IsField() && w != rv && w.Parent() != fi.Pkg.Types.Scope() && w.Pkg() == fi.Pkg.Types {
+					if !(lit.Pos() <= w.Pos() && w.Pos() < lit.End()) {
+						c.fail(lit, "closure %s captures %s (only the receiver may be captured)", id.Name, w.Name())
+					}
+				}
+			}
+			return true
+		})
+		mname := fi.Decl.Name.Name + "_" + id.Name
+		obj := types.NewFunc(lit.Pos(), fi.Pkg.Types, mname, types.NewSignatureType(rv, nil, nil, lsig.Params(), lsig.Results(), lsig.Variadic()))
+		decl := &ast.FuncDecl{Recv: fi.Decl.Recv, Name: ast.NewIdent(mname), Type: lit.Type, Body: lit.Body}
+		cfi := &FuncInfo{Obj: obj, Decl: decl, Pkg: fi.Pkg, File: fi.File, Name: strings.Replace(fi.Name, ")."+fi.Decl.Name.Name, ")."+mname, 1)}
+		if c.closures == nil {
+			c.closures = map[*types.Var]*FuncInfo{}
+			c.recvIdent = ast.NewIdent(rv.Name())
+			c.info().Uses[c.recvIdent] = rv
+		}
+		c.closures[v] = cfi
+		if c.spec != nil {
+			sp := *c.spec
+			sp.fuel, sp.stopAt, sp.stopRet, sp.name = nil, "", nil, cfi.Name
+			c.t.specs[obj] = &sp
+		}
+	}
 }
 
 func isScanner(t types.Type) bool {
@@ -1488,6 +1631,22 @@ func (c *fctx) assignedIn(n ast.Node) map[*types.Var]bool {
 			for _, v := range c.threadedVars(s) {
 				m[v] = true
 			}
+			// io.LimitReader(rd, n) (read to the end by io.ReadAll) consumes from the bufio.Reader
+			if g, ok := c.fi.Pkg.callee(s).(*types.Func); ok && g.Pkg() != nil && g.Pkg().Path() == "io" && g.Name() == "LimitReader" && len(s.Args) == 2 && isBufioReader(c.typeOf(s.Args[0])) {
+				if v := root(s.Args[0]); v != nil {
+					m[v] = true
+				}
+			}
+			// a closure that hands the receiver back assigns it
+			if id, ok := ast.Unparen(s.Fun).(*ast.Ident); ok {
+				if cv, ok := c.info().Uses[id].(*types.Var); ok && c.closures[cv] != nil {
+					cfi := c.closures[cv]
+					c.t.translate(cfi, c, s)
+					if c.t.recvInout[cfi.Obj] {
+						m[c.info().Uses[c.recvIdent].(*types.Var)] = true
+					}
+				}
+			}
 			if sel, ok := ast.Unparen(s.Fun).(*ast.SelectorExpr); ok {
 				if sn := c.info().Selections[sel]; sn != nil && isBuilder(sn.Recv()) {
 					if v := root(sel.X); v != nil && sn.Obj().Name() != "String" {
@@ -1630,7 +1789,7 @@ func (c *fctx) usedIn(n ast.Node) []*types.Var {
 	})
 	ast.Inspect(n, func(n ast.Node) bool {
 		if id, ok := n.(*ast.Ident); ok {
-			if v, ok := c.info().Uses[id].(*types.Var); ok && !v.IsField() && v.Parent() != c.fi.Pkg.Types.Scope() && v.Pkg() == c.fi.Pkg.Types {
+			if v, ok := c.info().Uses[id].(*types.Var); ok && !v.IsField() && v.Parent() != c.fi.Pkg.Types.Scope() && v.Pkg() == c.fi.Pkg.Types && c.closures[v] == nil {
 				if !seen[v] {
 					seen[v] = true
 					out = append(out, v)
@@ -1759,6 +1918,17 @@ func (c *fctx) assignTo(e *emitter, ind int, lhs ast.Expr, val string, define bo
 				}
 			}
 		}
+		// (a selector built by the translator itself — the array under a view — has no entry in Selections)
+		if c.info().Selections[l] == nil {
+			if id, ok := ast.Unparen(l.X).(*ast.Ident); ok {
+				if v, ok := c.info().Uses[id].(*types.Var); ok && v.Parent() != c.fi.Pkg.Types.Scope() {
+					if _, ok := leanTypeOf(v.Type()); ok {
+						e.add(ind, fmt.Sprintf("%s := { %s with %s := %s }", c.nameOf(v), c.nameOf(v), fieldName(l.Sel.Name), val))
+						return
+					}
+				}
+			}
+		}
 		c.fail(lhs, "assignment to %s", c.t.pr.text(c.fi.Pkg, lhs))
 	default:
 		c.fail(lhs, "assignment to %T", lhs)
@@ -1877,6 +2047,13 @@ func (c *fctx) stmt(e *emitter, ind int, s ast.Stmt) {
 			}
 		}
 	case *ast.AssignStmt:
+		if st.Tok == token.DEFINE && len(st.Lhs) == 1 {
+			if id, ok := st.Lhs[0].(*ast.Ident); ok {
+				if v, ok := c.info().Defs[id].(*types.Var); ok && c.closures[v] != nil {
+					return // a closure: translated as a method of the receiver where it is called
+				}
+			}
+		}
 		c.assign(e, ind, st)
 	case *ast.IncDecStmt:
 		one := &ast.BasicLit{Kind: token.INT, Value: "1"}
@@ -2104,26 +2281,25 @@ func (c *fctx) assign(e *emitter, ind int, st *ast.AssignStmt) {
 	}
 	// a call of a translated method that hands its receiver back: results, then the receiver's new value
 	if call, ok := ast.Unparen(st.Rhs[0]).(*ast.CallExpr); ok && len(st.Rhs) == 1 && (st.Tok == token.ASSIGN || st.Tok == token.DEFINE) {
-		if sel, ok := ast.Unparen(call.Fun).(*ast.SelectorExpr); ok {
-			if m, ok := c.fi.Pkg.callee(call).(*types.Func); ok {
-				if fi := c.t.pr.Funcs[m]; fi != nil && fi.Decl.Recv != nil && c.t.translatable(fi) {
-					c.t.translate(fi, c, call)
-					if c.t.recvInout[m] {
-						c.syncAlias(e, ind, sel.X, true)
-						t := c.tmp()
-						e.add(ind, "let "+t+" := "+c.expr(call))
-						// the receiver's new value first (a left-hand side may be one of its fields), then the results
-						recvProj := t + strings.Repeat(".2", len(st.Lhs))
-						c.assignTo(e, ind, sel.X, recvProj, false)
-						c.syncAlias(e, ind, sel.X, false)
-						proj := t
-						for _, l := range st.Lhs {
-							c.assignTo(e, ind, l, proj+".1", define)
-							proj += ".2"
-						}
-						return
-					}
+		if m, fi, recv := c.methodCallee(call); m != nil && c.t.translatable(fi) {
+			c.t.translate(fi, c, call)
+			if c.t.recvInout[m] {
+				c.syncAlias(e, ind, recv, true)
+				t := c.tmp()
+				c.noHoist = true
+				raw := c.expr(call)
+				c.noHoist = false
+				e.add(ind, "let "+t+" := "+raw)
+				// the receiver's new value first (a left-hand side may be one of its fields), then the results
+				recvProj := t + strings.Repeat(".2", len(st.Lhs))
+				c.assignTo(e, ind, recv, recvProj, false)
+				c.syncAlias(e, ind, recv, false)
+				proj := t
+				for _, l := range st.Lhs {
+					c.assignTo(e, ind, l, proj+".1", define)
+					proj += ".2"
 				}
+				return
 			}
 		}
 	}
@@ -2160,6 +2336,22 @@ func (c *fctx) assign(e *emitter, ind int, st *ast.AssignStmt) {
 	}
 	if len(st.Rhs) != 1 {
 		c.fail(st, "assignment shape")
+	}
+	// io.ReadAll(io.LimitReader(rd, n)) on a *bufio.Reader: the bytes, nil, and the reader's new state
+	if call, ok := ast.Unparen(st.Rhs[0]).(*ast.CallExpr); ok && len(st.Lhs) == 2 && len(call.Args) == 1 {
+		if f, ok := c.fi.Pkg.callee(call).(*types.Func); ok && f.Pkg() != nil && f.Pkg().Path() == "io" && f.Name() == "ReadAll" {
+			if lim, ok := ast.Unparen(call.Args[0]).(*ast.CallExpr); ok && len(lim.Args) == 2 {
+				if g, ok := c.fi.Pkg.callee(lim).(*types.Func); ok && g.Pkg() != nil && g.Pkg().Path() == "io" && g.Name() == "LimitReader" && isBufioReader(c.typeOf(lim.Args[0])) {
+					t := c.tmp()
+					e.add(ind, fmt.Sprintf("let %s := Go.io_ReadAllLimit %s %s", t, c.expr(lim.Args[0]), c.asInt(lim.Args[1])))
+					c.assignTo(e, ind, lim.Args[0], t+".2.2", false)
+					c.assignTo(e, ind, st.Lhs[0], t+".1", define)
+					c.assignTo(e, ind, st.Lhs[1], t+".2.1", define)
+					return
+				}
+			}
+			c.fail(st, "io.ReadAll of something other than io.LimitReader(<bufio.Reader>, n)")
+		}
 	}
 	// a read from a *bufio.Reader: the value(s) and the reader's new state
 	if call, ok := ast.Unparen(st.Rhs[0]).(*ast.CallExpr); ok && len(st.Lhs) == 2 {
@@ -2634,6 +2826,7 @@ func (t *ftr) translate(fi *FuncInfo, from *fctx, at ast.Node) string {
 	defer func() { curOpaque = savedOpaque }()
 	c := &fctx{t: t, fi: fi, spec: spec, base: name, names: map[types.Object]string{}, used: map[string]bool{}, localViews: map[*types.Var]*view{}}
 	sig := fi.Obj.Type().(*types.Signature)
+	c.findClosures()
 	// (a variadic parameter is the slice it is inside the function)
 	var params []string
 	var shadow []string
